@@ -27,6 +27,14 @@ TERMINALS = [
         'K': {4: [('1qaz', .7), ('qwer', .3)]},
         'Y': [('2019', .7), ('1999', .3)], 'X': [('#1', .9), ('<3', .1)],
     },
+    {   # capitalisation lists in which the all-lower mask is NOT the single most probable mask
+        'A': {1: [('a', .5), ('b', .5)], 2: [('ab', .6), ('cd', .4)]},
+        'C': {1: [('U', .75), ('L', .25)], 2: [('LL', .4), ('UL', .4), ('UU', .2)]},
+        'D': {1: [('1', .6), ('2', .4)], 2: [('12', 1.0)]},
+        'O': {1: [('!', 1.0)]},
+        'K': {4: [('1qaz', 1.0)]},
+        'Y': [('2019', 1.0)], 'X': [('#1', 1.0)],
+    },
 ]
 STRUCTS = ['A1', 'A1D1', 'D1A1', 'A2A1', 'A1O1A2', 'D1D1', 'D2', 'Y1O1', 'K4X1', 'M']
 PROBS = {1: [[1.0], [0.3]], 2: [[.5, .3], [.4, .4]], 3: [[.5, .3, .2], [.4, .4, .2]]}
